@@ -18,7 +18,7 @@ def Ev.inst : Ev → Nat
   | .rejected i _ _ => i
 
 theorem envPred_inst (env : Env) : EnvPred env (fun e => e.inst = env.inst) :=
-  ⟨fun _ _ _ h _ => h, fun _ _ h _ => h, fun _ => rfl⟩
+  ⟨fun _ _ _ _ _ _ _ => rfl, fun _ _ h _ => h, fun _ => rfl⟩
 
 /-! ### slots -/
 
